@@ -214,7 +214,8 @@ func (w *World) verifyLemma(l *Lemma) (res *UnitResult) {
 				bv, _ := x.boundValue(v.Name, vt)
 				sq := bv.(SeqV)
 				ns := SeqV{C: map[string]*Term{}, Off: x.c.Fresh(v.Name+"_off", SInt), Len: x.c.Fresh(v.Name+"_len", SInt)}
-				for k, a := range sq.C {
+				for _, k := range sortedKeys(sq.C) {
+					a := sq.C[k]
 					ns.C[k] = x.c.Fresh(v.Name+k, a.sort)
 				}
 				x.hyps = append(x.hyps, x.c.Le(x.c.Int(0), ns.Len), x.c.Le(x.c.Int(0), ns.Off))
@@ -339,7 +340,7 @@ func (w *World) verifyAxioms(props []string) (res *UnitResult) {
 					case *types.Slice:
 						bv, _ := x.boundValue("pb", pt)
 						sq := bv.(SeqV)
-						for k := range sq.C {
+						for _, k := range sortedKeys(sq.C) {
 							sq.C[k] = c.Fresh("probe_c", sq.C[k].sort)
 						}
 						sq.Off, sq.Len = c.Int(0), c.Int(probe)
